@@ -453,10 +453,11 @@ def _expr(name, spec, res):
         cfgs = [((0, 0), (0, 0))]
     else:
         nfac = len(basix.topology(basix.CellType[cellname])[tdim - 1])
-        perms = [0, 1] if edim == 1 else [0]
+        facet_kind = {1: "interval", 2: ("quadrilateral" if cellname == "hexahedron" else "triangle")}.get(edim, "point")
+        perms = {"interval": [0, 1], "triangle": [0, 1, 2, 3, 4, 5], "quadrilateral": [0, 1, 2, 3, 4, 5, 6, 7]}.get(facet_kind, [0])
         cfgs = [((e, 0), (p, 0)) for e in range(nfac) for p in perms]
         if tier == "quick":
-            cfgs = cfgs[:4] + cfgs[-1:]
+            cfgs = (cfgs[:4] + cfgs[-1:]) if edim == 1 else [cfgs[0], cfgs[1], cfgs[len(perms) + 2], cfgs[2 * len(perms) + 3], cfgs[-1], cfgs[-2]]
     for ci, (ents, perm) in enumerate(cfgs):
         ctx = Ctx()
         inp = uflref.Inputs(ctx, nw, nc, nx, cm)
@@ -480,6 +481,14 @@ def _expr(name, spec, res):
         epts = pts
         if edim < tdim and perm[0] == 1 and edim == 1:
             epts = 1.0 - pts  # one reflection of the reference interval
+        elif edim < tdim and edim == 2 and perm[0]:
+            # ufcx.h: code N = N div 2 rotations, then N mod 2 reflections of the reference facet; FFCx's documented
+            # elementary maps: triangle rotation (x,y)->(y,1-x-y), quadrilateral rotation (x,y)->(y,1-x), reflection (x,y)->(y,x)
+            epts = np.array(pts, dtype=float)
+            for _ in range(perm[0] // 2):
+                epts = np.array([[q[1], 1 - q[0] - q[1]] if facet_kind == "triangle" else [q[1], 1 - q[0]] for q in epts])
+            for _ in range(perm[0] % 2):
+                epts = np.array([[q[1], q[0]] for q in epts])
         ev.set_points(epts, np.ones(npts), entity_dim=edim)
         zero = CPoly(ctx.const(0), ctx.const(0)) if cm else ctx.const(0)
         Rf = [zero] * nA
